@@ -346,6 +346,25 @@ def validate(case):
     return allowed
 
 
+def vanishing_at(case, digits):
+    """Some non-zero constant of the case (or a product of two of them, as expansion forms) rounds to zero at the
+    requested decimals: the precondition of the 'printed as nothing' form of known finding K4."""
+    consts = []
+    for key in ("conds", "equalities"):
+        for c in case.get(key, []):
+            consts += [Fraction(x) for e in _walk(c) for x in e if isinstance(x, str) and poly.is_number(x)]
+            consts += [Fraction(x) for x in c[1:] if isinstance(x, str) and poly.is_number(x)]
+    if "expr" in case:
+        consts += [Fraction(x) for e in _walk(case["expr"]) for x in e if isinstance(x, str) and poly.is_number(x)]
+    consts = [abs(c) for c in consts if c != 0]
+    half = Fraction(1, 2) / (10 ** digits)
+    return any(c <= half for c in consts) or any(a * b <= half for a in consts for b in consts)
+
+
+def missing_operand_only(probs):
+    return bool(probs) and all(p.startswith("operator ") and p.endswith((" with 1 operands", " with 0 operands")) for p in probs)
+
+
 def k4_trigger(case):
     """Shapes of the known finding K4 (excluded by construction, counted)."""
     def fluent_free(e):
@@ -471,6 +490,11 @@ def check_case(case):
         else:
             ast_c = ast
             probs = structure_problems(ast, allowed, root_ops)
+        if probs and ctx.active(F_K4) and missing_operand_only(probs) and vanishing_at(case, digits):
+            # defect model K4, sub-expression form: a divisor / factor whose every coefficient rounds to zero at the
+            # requested decimals is printed as nothing, (/ 1 )
+            res.known.append(F_K4)
+            return
         if probs:
             res.bad(f"C13/{tag}/output-not-binary-pddl", {**info, "output": text, "problems": probs[:3]})
             return
@@ -559,6 +583,9 @@ def check_case(case):
             if ctx.active(F_K4) and k4_form(o):
                 continue
             probs = structure_problems(o, allowed, ("=", "<", "<=", ">", ">="))
+            if probs and ctx.active(F_K4) and missing_operand_only(probs) and vanishing_at(case, digits):
+                res.known.append(F_K4)      # K4, sub-expression form (see above)
+                return res
             if probs:
                 res.bad("C13/print/output-not-binary-pddl", {**info, "output": out, "problems": probs[:3]})
                 return res
